@@ -63,6 +63,7 @@ unsigned char code(unsigned long i) {
   return (unsigned char)(((x >> 13) ^ (x >> 29) ^ i) & 0x7f);
 }
 
+static double nowSec() { struct timespec ts; clock_gettime(CLOCK_MONOTONIC, &ts); return ts.tv_sec + ts.tv_nsec / 1e9; }
 const char* statusName(ProcessStatus s) {
   switch (s) {
   case ProcessStatus::Succeeded: return "succeeded";
@@ -618,6 +619,49 @@ struct Run {
       destroyQueue(); childAccounting(); judgeAll();
       return;
     }
+    if (sc.kind == "cancel-released-destroy") {
+      // A child that has handed its lane back and ignores SIGINT is still running when the queue is cancelled and -
+      // 300 ms later, while the SIGKILL escalation is still waiting for its 1 s - destroyed: tearing the queue down has
+      // to kill it. Real time decides whether the escalation thread is already waiting when the destructor runs, so
+      // the scenario is repeated (up to 3 times) and only a failure of EVERY attempt is a verdict.
+      std::string seen;
+      bool good = false;
+      for (int attempt = 0; attempt < 3 && !good; ++attempt) {
+        makeQueue(false);
+        std::string fifo = dir + "/fifoR" + std::to_string(attempt);
+        mkfifo(fifo.c_str(), 0600);
+        Launch& L = addChild("released" + std::to_string(attempt), {"release-then-gate", fifo, "ignore-int"});
+        submit(L);
+        if (!waitReady(L)) hang(L, "waiting for the released child to report ready");
+        cancel();
+        usleep(300000);
+        double t0 = nowSec();
+        // the destructor blocks until the child is gone: give it 3 s, then put the child down ourselves
+        std::atomic<bool> destroyed{false};
+        std::thread watchdog([&] {
+          for (int i = 0; i < 300 && !destroyed.load(); ++i) usleep(10000);
+          if (!destroyed.load() && L.pid > 0) kill((pid_t)L.pid, SIGKILL);
+        });
+        destroyQueue();
+        double took = nowSec() - t0;
+        destroyed.store(true);
+        watchdog.join();
+        int raw = L.completionResult.exitCode;
+        bool killed = L.completions == 1 && L.completionResult.status == ProcessStatus::Cancelled && (raw == SIGKILL || (WIFSIGNALED(raw) && WTERMSIG(raw) == SIGKILL));
+        seen = "completions=" + std::to_string(L.completions) + " status=" + statusName(L.completionResult.status) + " exitCode field " + std::to_string(raw) +
+               ", destroying the queue took " + std::to_string(took).substr(0, 5) + " s";
+        good = killed && took < 2.5;
+        if (L.pid > 0) kill((pid_t)L.pid, SIGKILL);
+        int st = 0;
+        while (waitpid(-1, &st, WNOHANG) > 0) {}
+        rep.count("released_destroy_attempts");
+      }
+      if (!good)
+        rep.violate("C16.proc-released-child-not-killed-at-queue-destruction",
+                    sc.spec + ": a child that released its lane and ignores SIGINT was running when cancelAllJobs() was called; the queue was destroyed 300 ms later "
+                    "(before the SIGKILL escalation timeout) and the child was not killed - in 3 of 3 attempts; last attempt: " + seen);
+      return;
+    }
     rep.violate("C16.other-harness-unknown-scenario", sc.spec);
   }
 };
@@ -679,6 +723,7 @@ std::vector<Scenario> buildTable() {
       add(mk("cancel-gated-released", "cancel-gated", "released", {}, ctl, "cancel:gated-after-lane-release"));
     }
     if (!serial) add(mk("cancel-gated-two", "cancel-gated", "two", {}, true, "cancel:gated-two-children"));
+    if (!serial) add(mk("cancel-released-destroy", "cancel-released-destroy", "", {}, true, "cancel:released-ignoring-sigint-then-destroy"));
     for (const char* v : {"ignore-int", "no-interrupt"}) {
       Scenario s = mk("cancel-escalate", "cancel-gated", v, {}, true, std::string("cancel:escalate:") + v);
       s.thoroughOnly = true;
